@@ -4,6 +4,7 @@ import (
 	"context"
 	"errors"
 	"fmt"
+	"math"
 	"net"
 	"sync"
 	"time"
@@ -172,7 +173,9 @@ func (t *transport) Run() error {
 		return fmt.Errorf("could not create listener: %w", err)
 	}
 
-	t.server = grpc.NewServer()
+	// Requests carry whole log suffixes and snapshot chunks: accept anything a client may
+	// send (the client-side default send limit) instead of the 4 MiB default receive limit.
+	t.server = grpc.NewServer(grpc.MaxRecvMsgSize(math.MaxInt32))
 	pb.RegisterRaftServer(t.server, t)
 	go t.server.Serve(listener)
 	t.running = true
